@@ -381,15 +381,16 @@ class TokenAwarePolicy(LoadBalancingPolicy):
                     # the list belongs to the token map: shuffle a copy
                     replicas = list(replicas)
                     shuffle(replicas)
+                yielded = []
                 for replica in replicas:
                     if replica.is_up and \
                             child.distance(replica) == HostDistance.LOCAL:
+                        yielded.append(replica)
                         yield replica
 
                 for host in child.make_query_plan(keyspace, query):
                     # skip if we've already listed this host
-                    if host not in replicas or \
-                            child.distance(host) == HostDistance.REMOTE:
+                    if host not in yielded:
                         yield host
 
     def on_up(self, *args, **kwargs):
